@@ -629,6 +629,9 @@ func concScenarios(quick bool) []*mc.Scenario {
 	for _, p := range concPrograms(quick) {
 		scs = append(scs, LinScenario(p))
 	}
+	for _, p := range AllowPrograms() {
+		scs = append(scs, LinScenario(p))
+	}
 	return scs
 }
 
